@@ -17,7 +17,7 @@ from harness.tables import walk
 PID = "C05"
 G = {}
 PLANT = ["corrupt-content-class", "corrupt-content-reject-class", "corrupt-content-reject-class", "add-unknown-child", "add-misplaced-child", "rename-unknown", "corrupt-attr", "add-attr", "drop",
-         "duplicate", "graft-under-metadata", "set-content-on-empty", "clear-content", "twin-corrupt-attr-value", "twin-corrupt-attr-value", "twin-corrupt-earlier"]
+         "duplicate", "graft-under-metadata", "set-content-on-empty", "clear-content", "twin-corrupt-attr-value", "twin-corrupt-attr-value", "twin-corrupt-earlier", "corrupt-content-surrogate", "corrupt-content-surrogate"]
 
 
 def plant_at(node, kind, rnd, t):
@@ -28,6 +28,8 @@ def plant_at(node, kind, rnd, t):
         node.add_child(Node("zzUnknownChild"), index=rnd.randint(0, len(node.children)))
     elif kind == 2:
         node.add_attribute("zzBadAttr", "v")
+    elif kind == 4:
+        node.content = "lone\ud800surrogate"          # not Unicode text; whatever validate.node says of it, validate.tree must say too
     else:
         node.add_child(Node("title", content="misplaced"))
 
@@ -174,11 +176,11 @@ def run(rep, tier, seed):
     if base_seed is None:
         raise MachineryError("could not generate a valid ~40-node base tree")
     G.update(t=t, base_el=base_el, base_seed=base_seed)
-    jobs = [(seed + i, [i], [k]) for i in range(size) for k in range(4)]
+    jobs = [(seed + i, [i], [k]) for i in range(size) for k in range(5)]
     pairs = [(i, j) for i in range(size) for j in range(i + 1, size)]
     if tier == "quick":
         pairs = rnd.sample(pairs, min(len(pairs), 250))
-    jobs += [(seed + 7 * i + j, [i, j], [rnd.randrange(4), rnd.randrange(4)]) for (i, j) in pairs]
+    jobs += [(seed + 7 * i + j, [i, j], [rnd.randrange(5), rnd.randrange(5)]) for (i, j) in pairs]
     evs = [e for chunk in parallel(w_systematic, jobs) for e in chunk]
     nrand = 300 if tier == "quick" else 6000
     bad_bases = []
